@@ -90,7 +90,9 @@ def run(tier):
             raise vlib.InfraError("c06-walk failed (%d): %s" % (rc, err[-2000:]))
         summ = json.loads(out.strip().splitlines()[-1])
         ck.cov.setdefault("walks", {})[name] = summ
-        if summ["executed"] + summ["crashes"] < summ["edges"] or summ["reached"] != summ["nodes"]:
+        # a walk that stopped early because the library kept crashing is judged on what it recorded (the crash records are
+        # rejected by the trace spec); an incomplete walk without any crash is a failure of the machinery
+        if (summ["executed"] + summ["crashes"] < summ["edges"] or summ["reached"] != summ["nodes"]) and summ["crashes"] == 0:
             raise vlib.InfraError("c06-walk %s incomplete: %s" % (name, summ))
         ck.cov["evaluations"] += summ["executed"] + summ["reloads"]
         ck.cov["traces_validated_against_impl"] += summ["matched"]      # inherit TLC's verdict on the identical transition
